@@ -21,6 +21,16 @@ TOL = 1e-12
 
 
 @st.composite
+def filter_cases(draw, tier="quick"):
+    """as cases(), plus POMDPs whose action sets depend on the state (only (belief, action) pairs whose action is
+    available at every state of the belief's support are evaluated)"""
+    if draw(st.integers(0, 3)) > 0:
+        return draw(cases(tier))
+    spec = draw(pomdp_specs(max_states=4, uniform_actions=False, absorbing_kinds=("n", "n", "n", "abs")))
+    return {"pomdp": spec, "belief": draw(belief_weights(spec["n"])), "seq": []}
+
+
+@st.composite
 def cases(draw, tier="quick"):
     spec = draw(st.one_of(pomdp_specs(max_states=5 if tier == "thorough" else 4, extreme=True),
                           pomdp_specs(min_states=4, max_states=6, max_actions=2, max_obs=2,
@@ -66,11 +76,14 @@ def prop_filter(case, ctx):
     w = _mask_belief(ref, case["belief"])
     rb = ref.belief(w)
     tot = sum(w)
-    b_dict = DictDistribution({S[s]: x / tot for s, x in enumerate(w) if S[s] in sl})
+    uniform = len({tuple(sorted(a)) for a in view.avail}) == 1
+    # with state-dependent action sets the belief lists its support only (the model is not defined for an
+    # unavailable action at a zero-probability state)
+    b_dict = DictDistribution({S[s]: x / tot for s, x in enumerate(w) if S[s] in sl and (uniform or x > 0)})
     b_vec = np.array([b_dict.get(s, 0.0) for s in sl])
 
     # observation list / matrix vs spec
-    want_obs = {OL[o] for a in range(ref.m) for ns in ref.reach for o in ref.O[a][ns]}
+    want_obs = {OL[o] for a in range(ref.m) if A[a] in al for ns in ref.reach for o in ref.O[a][ns]}
     ctx.check(set(ol) == want_obs and len(ol) == len(set(ol)), "C07.observation_list",
               lambda: f"{ol} vs {want_obs}")
     for ai, a in enumerate(al):
@@ -82,6 +95,9 @@ def prop_filter(case, ctx):
 
     informative = False
     for a in range(ref.m):
+        if A[a] not in al or any(a not in view.avail[s] for s in rb):
+            ctx.event("action_unavailable_in_belief_support_skipped")
+            continue
         al_a = al.index(A[a])
         # predictive observation distribution
         rod = ref.obs_dist(rb, a)
@@ -226,7 +242,7 @@ def prop_track(case, ctx):
 
 
 PROPS = [
-    Prop("filter", lambda tier: cases(tier), prop_filter, quick=2500, thorough=150000,
+    Prop("filter", lambda tier: filter_cases(tier), prop_filter, quick=2500, thorough=150000,
          doc="state_estimator / predictive_observation (dict and vec) and observation_matrix vs exact Bayes"),
     Prop("beliefmdp", lambda tier: cases(tier), prop_beliefmdp, quick=1500, thorough=90000,
          doc="BeliefMDP transitions, reward, absorbing test, initial belief"),
